@@ -353,11 +353,19 @@ class SemantivaOrchestrator(ABC):
                 except BaseException as exc:
                     if trace_driver is not None:
                         post_ctx_view = self._context_snapshot(context)
-                        context_delta = self._ensure_context_delta(
-                            hooks.context_delta_provider()
-                            if hooks.context_delta_provider
-                            else {}
-                        )
+                        # The delta of a failed node is computed for the trace only
+                        # (an untraced run never asks for it): when it cannot be
+                        # computed - context keys written before the failure that
+                        # cannot be ordered - the node's own exception still wins.
+                        try:
+                            failed_delta = (
+                                hooks.context_delta_provider()
+                                if hooks.context_delta_provider
+                                else {}
+                            )
+                        except Exception:
+                            failed_delta = {}
+                        context_delta = self._ensure_context_delta(failed_delta)
                         post_checks = (
                             [
                                 {
